@@ -143,7 +143,89 @@ def build(reg):
         ensures=[('directory-table-injective-and-stable', post)], raises={'sqlite3.IntegrityError': True}, loops={1: LoopSpec(inv=loop1), 2: LoopSpec(inv=loop2), 3: LoopSpec(inv=loop3)},
         modifies=['self.__dirs', 'self.__known', 'self.__visited'], locals_types={'knownDirs': SetT(STR)},
         note='kept entries are written back unchanged; new entries are numbered around kept directories'))
+    units[-1].dyn = False
+    units += collect_paths(reg)
     units += [Watch(F, 'DevelopDirOracle.__fmt', 'keeps an old mapping if the base directory still matches'), Watch(F, 'DevelopDirOracle.__touch', 'graph traversal'),
               Watch('pym/bob/state.py', '_BobState.getByNameDirectory', 'release mode counters'),
-              Watch('pym/bob/cmds/build/clean.py', 'collectPaths', 'paths in use'), Watch('pym/bob/cmds/build/clean.py', 'doClean', 'see C12 for the dry-run contract')]
+              Watch('pym/bob/cmds/build/clean.py', 'doClean', 'see C12 for the dry-run contract')]
     return units
+
+
+# ---------------------------------------------------------------------------------------------------------------------
+# clean.collectPaths: the set of directories `bob clean` must keep.  Depth first walk over the package graph with a
+# visited set keyed by package._getId().  Proved (recursion by contract, Dyn values with typed sets): the visited set at
+# return contains the root, is closed under direct dependencies, and for every visited package the result contains its
+# checkout workspace (if valid), its build workspace (if valid and the recorded state is absent or matches the variant id)
+# and its package workspace (same condition).  So every package reachable from the root keeps its directories.
+# Assumption (stated, not proved): _getId() identifies a package (equal ids => same steps and dependencies).
+def collect_paths(reg):
+    from pyvc import dyn, extract
+    from pyvc.dyn import DYN, D
+    from pyvc.core import Closure
+    FC = 'pym/bob/cmds/build/clean.py'
+    if not getattr(reg, '_dyn', False): dyn.install(reg)
+    ID = z3.Function('PKG_id', D, D); CO = z3.Function('PKG_checkoutStep', D, D); BS = z3.Function('PKG_buildStep', D, D); PS = z3.Function('PKG_packageStep', D, D)
+    VALID = z3.Function('STEP_isValid', D, z3.BoolSort()); WS = z3.Function('STEP_workspacePath', D, D); VID = z3.Function('STEP_variantId', D, D); PKG = z3.Function('STEP_package', D, D)
+    DS = z3.Function('STATE_directoryState', D, D); LD = ListT(DYN); DEPS = z3.Function('PKG_directDepSteps', D, sort_of(LD)); PKG_BY_ID = z3.Function('PKG_by_id', D, D)
+    INDEX = z3.Function('DYN_INDEX', D, D, D); SD = SetT(DYN)
+    reg.trusted += ['package._getId() identifies the package: PKG_by_id(_getId(p)) == p (equal ids => same steps and the same dependencies); getDirectoryState is a function of the path during the walk']
+    def fn(name, f, ret_bool=False):
+        def m(e, st, a, kw, n):
+            r = f(a[0].z)
+            return [(st, mk_bool(r) if ret_bool else V(DYN, r))]
+        reg.models['Dyn.' + name] = m; reg.pure_names.add('Dyn.' + name)
+    fn('_getId', ID); fn('getCheckoutStep', CO); fn('getBuildStep', BS); fn('getPackageStep', PS); fn('isValid', VALID, True); fn('getWorkspacePath', WS); fn('getVariantId', VID); fn('getPackage', PKG)
+    reg.models['Dyn.getDirectDepSteps'] = lambda e, st, a, kw, n: [(st, V(LD, DEPS(a[0].z)))]
+    reg.models['Dyn.getDirectoryState'] = lambda e, st, a, kw, n: [(st, V(DYN, DS(dyn.dynify(e, st, a[1]))))]
+    reg.pure_names |= {'Dyn.getDirectDepSteps', 'Dyn.getDirectoryState'}
+    def idax():
+        p = z3.Const('idp', D); i = z3.Int('idi')
+        return [z3.ForAll([p], PKG_BY_ID(ID(p)) == p, patterns=[ID(p)]), z3.ForAll([p], list_len(LD, DEPS(p)) >= 0, patterns=[DEPS(p)])]
+    reg.axioms['always:package-id-identifies-package'] = idax
+    def keep_ok(P, paths):
+        """the directories of package P that have to be kept are in `paths`"""
+        bs, ps, co = BS(P), PS(P), CO(P)
+        st_b = DS(WS(bs)); st_p = DS(WS(ps))
+        return z3.And(z3.Implies(VALID(co), z3.Select(paths, WS(co))),
+                      z3.Implies(z3.And(VALID(bs), z3.Or(st_b == dyn.NONE_D, dyn.EQ(VID(bs), INDEX(st_b, dyn.OF_INT(z3.IntVal(0)))))), z3.Select(paths, WS(bs))),
+                      z3.Implies(z3.Or(st_p == dyn.NONE_D, dyn.EQ(VID(ps), st_p)), z3.Select(paths, WS(ps))))
+    def closed_at(x, done, paths):
+        """x (an id in done) is fully handled: directories kept, all direct dependencies visited"""
+        P = PKG_BY_ID(x); i = z3.Int(fresh_name('ci')); L = DEPS(P)
+        return z3.And(keep_ok(P, paths), z3.ForAll([i], z3.Implies(z3.And(0 <= i, i < list_len(LD, L)), z3.Select(done, ID(PKG(list_get(LD, L, i))))), patterns=[list_get(LD, L, i)]))
+    def subset(A, B_, srt):
+        x = z3.Const(fresh_name('sx'), srt); return z3.ForAll([x], z3.Implies(z3.Select(A, x), z3.Select(B_, x)))
+    def new_closed(d0, d1, p1, extra=None):
+        x = z3.Const(fresh_name('nx'), D)
+        cond = z3.And(z3.Select(d1, x), z3.Not(z3.Select(d0, x)))
+        if extra is not None: cond = z3.And(cond, x != extra)
+        return z3.ForAll([x], z3.Implies(cond, closed_at(x, d1, p1)))
+    WQ = 'collectPaths.<locals>.walk'
+    def w_post(o, n, r):
+        d0, p0, d1, p1 = o.done.z, o.paths.z, n.done.z, n.paths.z
+        return z3.And(z3.Select(d1, ID(o.package.z)), subset(d0, d1, D), subset(p0, p1, D), new_closed(d0, d1, p1))
+    def w_loop(cur, old, k, L):
+        d0, p0, d1, p1 = old.done.z, old.paths.z, cur.done.z, cur.paths.z; P = old.package.z; i = z3.Int(fresh_name('wi'))
+        return [('iterates-the-direct-dependencies', L == DEPS(P)), ('visited-grows', z3.And(subset(d0, d1, D), z3.Select(d1, ID(P)), z3.Not(z3.Select(d0, ID(P))))), ('kept-grows', subset(p0, p1, D)),
+                ('own-directories-kept', keep_ok(P, p1)), ('newly-visited-packages-are-handled', new_closed(d0, d1, p1, extra=ID(P))),
+                ('dependencies-so-far-visited', z3.ForAll([i], z3.Implies(z3.And(0 <= i, i < k), z3.Select(d1, ID(PKG(list_get(LD, L, i))))), patterns=[list_get(LD, L, i)])),
+                ('frame', cur.package.z == P)]
+    def inject(eng, st):
+        fr = st.frames[-1]
+        fr['paths'] = eng.fresh(st, SD, 'paths'); fr['done'] = eng.fresh(st, SD, 'done')
+        mi = extract.load(FC); fnode, ci = mi.find_func(WQ)
+        fr['walk'] = V(FUNC, Closure(fnode, {}, None, mi, name='bob.cmds.build.clean.' + WQ))
+        fr['__transparent_closure__'] = True
+    def w_view(names):
+        pass
+    u = Unit(FC, WQ, {'package': DYN}, 'C16', entry_hook=inject, ensures=[('visits-the-package-and-handles-everything-newly-visited', w_post)],
+             loops={1: LoopSpec(inv=w_loop)}, modifies=['paths', 'done'], note='depth first walk of the package graph')
+    u.dyn_literals = False; u.closure = ('paths', 'done')
+    reg.add(u)
+    def c_post(o, n, r):
+        d1 = n.done.z; p1 = r.z; x = z3.Const(fresh_name('rx'), D)
+        return z3.And(z3.Select(d1, ID(o.rootPackage.z)), z3.ForAll([x], z3.Implies(z3.Select(d1, x), closed_at(x, d1, p1))))
+    u2 = Unit(FC, 'collectPaths', {'rootPackage': DYN}, 'C16', ensures=[('visited-set-contains-the-root-is-closed-under-dependencies-and-every-visited-package-keeps-its-directories', c_post)],
+              result=SD, locals_types={'paths': SD, 'done': SD}, note='directories that bob clean must keep')
+    u2.dyn_literals = False
+    return [u, u2]
